@@ -5,7 +5,6 @@
 
 use serde::{Deserialize, Serialize};
 
-use crate::ensure;
 use crate::kernel::{Outcome, PropertySpec, Rng, RunCtx, Scenario, Tier};
 use crate::world::gen::{gen_prog, gen_state, ProgKnobs, StateSpec};
 use crate::world::rules::N_RULES;
